@@ -173,6 +173,162 @@ def replay_rows(binpath, rows_file, ptype, coll="map", ctx="plain", max_mismatch
 
 
 # ---------------------------------------------------------------------------------------------
+# trace validation (implementation -> specification)
+# ---------------------------------------------------------------------------------------------
+TRACE_JAVA = ["java", "-XX:+UseParallelGC", "-Xmx3g", "-Xss1g", "-Dtlc2.tool.queue.IStateQueue=StateDeque",
+              "-cp", JAVA_CP, "tlc2.TLC", "-workers", "1"]
+
+
+def _trace_dir(tag):
+    d = os.path.join(WORK, "tv_" + tag)
+    shutil.rmtree(d, ignore_errors=True)
+    os.makedirs(d)
+    for f in os.listdir(SPEC):
+        if f.endswith(".tla"):
+            shutil.copy(os.path.join(SPEC, f), d)
+    open(os.path.join(d, "TV.tla"), "w").write("---- MODULE TV ----\nEXTENDS TraceV\n====\n")
+    open(os.path.join(d, "TV.cfg"), "w").write("INIT Init\nNEXT Next\nCONSTRAINT Track\nPOSTCONDITION Accepted\nCHECK_DEADLOCK FALSE\n")
+    open(os.path.join(d, "TD.tla"), "w").write("---- MODULE TD ----\nEXTENDS TraceV\n====\n")
+    open(os.path.join(d, "TD.cfg"), "w").write("INIT Init\nNEXT DiagNext\nCHECK_DEADLOCK FALSE\n")
+    return d
+
+
+def record_trace(binpath, tag, ptype, profile, runs, events, sd, timeout=600):
+    d = _trace_dir(tag)
+    tf = os.path.join(d, "trace.ndjson")
+    cmd = [binpath, "trace", "--type", ptype, "--seed", str(sd), "--runs", str(runs), "--events", str(events),
+           "--profile", profile, "--trace", tf]
+    try:
+        p = subprocess.run(cmd, capture_output=True, text=True, timeout=timeout)
+    except subprocess.TimeoutExpired:
+        return dict(dir=d, trace=tf, diverged=True, ptype=ptype, profile=profile)
+    if p.returncode != 0:
+        raise ToolError(f"trace driver failed rc={p.returncode}: {p.stderr[-1500:]}")
+    info = json.loads(p.stdout.strip().split("\n")[-1])
+    info.update(dir=d, trace=tf, profile=profile)
+    return info
+
+
+def _tlc_trace(d, cfg, trace_file, env_extra=None, timeout=900):
+    env = dict(os.environ, TRACE=trace_file)
+    env.pop("JAVA_TOOL_OPTIONS", None)
+    if env_extra:
+        env.update(env_extra)
+    cmd = TRACE_JAVA + ["-metadir", os.path.join(d, "md_" + cfg), "-cleanup", "-noGenerateSpecTE", "-config", cfg + ".cfg", cfg + ".tla"]
+    try:
+        p = subprocess.run(cmd, cwd=d, env=env, capture_output=True, text=True, timeout=timeout)
+    except subprocess.TimeoutExpired:
+        raise ToolError("TLC trace validation timed out")
+    return p.stdout
+
+
+def validate_trace(info, max_rounds=6):
+    """Validate a recorded trace. Returns dict(lines_ok, rejections=[{line, event, expected}], rounds)."""
+    d, tf = info["dir"], info["trace"]
+    lines = open(tf).read().split("\n")
+    if lines and lines[-1] == "":
+        lines.pop()
+    res = dict(lines=len(lines), lines_ok=0, rejections=[], ptype=info.get("ptype"), profile=info.get("profile"))
+    cur = lines
+    rounds = 0
+    while cur and rounds < max_rounds:
+        rounds += 1
+        part = os.path.join(d, f"part{rounds}.ndjson")
+        open(part, "w").write("\n".join(cur) + "\n")
+        out = _tlc_trace(d, "TV", part)
+        if "No error has been found" in out:
+            res["lines_ok"] += len(cur)
+            break
+        m = re.search(r'TRACE-REJECTED-AT-LINE", (\d+), "OF", (\d+)', out)
+        if not m:
+            raise ToolError("trace validation failed without a verdict:\n" + out[-3000:])
+        k = int(m.group(1))
+        res["lines_ok"] += k - 1
+        # diagnose: what does the specification expect for line k?
+        dout = _tlc_trace(d, "TD", part, env_extra={"DIAG": str(k)})
+        exp = None
+        for ln in dout.split("\n"):
+            if ln.startswith('"{'):
+                try:
+                    exp = json.loads(json.loads(ln))["expected"]
+                except Exception:
+                    pass
+        ev = json.loads(cur[k - 1])
+        # the steps of this run up to the rejected line (for the replay file)
+        start = max(i for i in range(k) if json.loads(cur[i]).get("a") == "Reset") if any(
+            json.loads(cur[i]).get("a") == "Reset" for i in range(k)) else 0
+        res["rejections"].append(dict(line=k, event=ev, expected=exp, steps=[json.loads(x) for x in cur[start:k - 1]],
+                                      diag_tail=None if exp is not None else dout[-1500:]))
+        # resynchronise at the next Reset
+        nxt = next((i for i in range(k, len(cur)) if json.loads(cur[i]).get("a") == "Reset"), None)
+        cur = cur[nxt:] if nxt is not None else []
+    res["rounds"] = rounds
+    return res
+
+
+OBS_FACETS = {"get": "Get", "kv": "GetKV", "has": "Contains", "lpm": "Lpm", "spm": "Spm", "cover": "Cover", "children": "Children"}
+
+
+def trace_mismatches(rej):
+    """Turn one rejected trace line into mismatch records (kind, e, expected, got) for owners()."""
+    ev, exp = rej["event"], rej["expected"]
+    out = []
+    if exp is None:
+        raise ToolError("could not diagnose rejected trace line: " + str(rej.get("diag_tail")))
+    base = dict(h=rej["steps"][-30:], line=rej["line"])
+    if exp["kind"] == "map":
+        if exp["pan"] != ev.get("pan"):
+            out.append(dict(base, kind="pan", e=ev, expected=exp["pan"], got=ev.get("pan")))
+        elif exp["ret"] != ev.get("ret"):
+            out.append(dict(base, kind="ret", e=ev, expected=exp["ret"], got=ev.get("ret")))
+        if "x" in ev:
+            for i, k in enumerate(("alen", "nfree", "count")):
+                if exp["x"][i] != ev["x"][i]:
+                    out.append(dict(base, kind=k, e=ev, expected=exp["x"][i], got=ev["x"][i]))
+        if "t" in ev and exp["t"] != ev["t"]:
+            ee, eg = tree_entries(exp["t"]), tree_entries(ev["t"])
+            if ee != eg:
+                out.append(dict(base, kind="entries", e=ev, expected=ee, got=eg))
+            if tree_shape(exp["t"]) != tree_shape(ev["t"]):
+                out.append(dict(base, kind="shape", e=ev, expected=tree_shape(exp["t"]), got=tree_shape(ev["t"])))
+            elif ee == eg:
+                out.append(dict(base, kind="tree", e=ev, expected=exp["t"], got=ev["t"]))
+        if not out:
+            raise ToolError(f"trace line {rej['line']} rejected although every logged field matches: the specification's "
+                            f"self-checks failed (wf={exp.get('wf')}, partition={exp.get('partition')}, absok={exp.get('absok')})")
+    elif exp["kind"] == "obs":
+        if exp["iter"] != ev["iter"] or len(ev["E"]) != len(exp["iter"]):
+            out.append(dict(base, kind="ret", e={"a": "Iter"}, expected=exp["iter"], got=ev["iter"]))
+        if exp["len"] != ev["len"] or ev["empty"] != (ev["len"] == 0):
+            out.append(dict(base, kind="len_vs_iter", e={"a": "Len"}, expected=exp["len"], got=[ev["len"], ev["empty"]]))
+        for qe, qg in zip(exp["qs"], ev["qs"]):
+            for f, act in OBS_FACETS.items():
+                if qe[f] != qg[f]:
+                    out.append(dict(base, kind="ret", e={"a": act, "p": qg["q"], "E": ev["E"]}, expected=qe[f], got=qg[f]))
+        if not out:
+            raise ToolError(f"Obs line {rej['line']} rejected although every facet matches")
+    elif exp["kind"] == "pair":
+        if exp["ret"] != ev.get("ret") or ev.get("pan"):
+            out.append(dict(base, kind="pan" if ev.get("pan") else "ret", e=ev, expected=exp["ret"], got=ev.get("ret")))
+        else:
+            raise ToolError(f"pair line {rej['line']}: the code agrees with the machine but the abstract judgement fails (specification bug)")
+    return out
+
+
+def tree_entries(t):
+    if not t or len(t) < 5:
+        return []
+    me = [[t[0], t[1], t[2]]] if t[2] != -1 else []
+    return me + tree_entries(t[3]) + tree_entries(t[4])
+
+
+def tree_shape(t):
+    if not t or len(t) < 5:
+        return []
+    return [t[0], tree_shape(t[3]), tree_shape(t[4])]
+
+
+# ---------------------------------------------------------------------------------------------
 # ownership of disagreements
 # ---------------------------------------------------------------------------------------------
 RET_OWNER = {
